@@ -128,6 +128,13 @@ def c17_3(ctx):
     assigns = [unparse(t) for s in inner.body for n in ast.walk(s) if isinstance(n, (ast.Assign, ast.AugAssign)) for t in (n.targets if isinstance(n, ast.Assign) else [n.target])]
     for var, what in (('current_scope', 'local-label region'), ('current_memzone', 'selected memory zone')):
         ctx.check(var not in assigns, f'continues:{var}', load.site(node), f'the includer\'s {what} continues unchanged after the include', f'assigned in the include branch: {assigns}')
+    # "as if pasted in place": text pasted after a #mute is muted, and a #mute inside it stays in force after it
+    passes_mute = any('mute' in unparse(a).lower() or unparse(a) == 'condition_stack' for a in list(node.args) + [k.value for k in node.keywords])
+    cs_new = [c for c in ast.walk(load.node) if isinstance(c, ast.Call) and unparse(c.func) == 'ConditionStack']
+    seeded_ = any(c.args or c.keywords for c in cs_new)
+    ctx.check(passes_mute and seeded_, 'splice:mute-state-inherited', load.site(node),
+              'an included file starts in the includer\'s mute state (and hands its final mute state back)',
+              'every file starts unmuted with a counter of its own: bytes of a file included after #mute reach the image, and a #mute inside an included file ends with the file')
     b = bind_args(node, ctx.repo.func(AF + '._handle_include_file'))
     ok = all(unparse(b.get(n_)) == n_ for n_ in ('line_id', 'isa_model', 'memzone_manager', 'preprocessor', 'include_paths', 'assembly_files_used'))
     ctx.check(ok, 'splice:shared-context', load.site(node), 'the include is processed with the includer\'s model, zones, symbols, search path and loaded-file set', unparse(node)[:200])
